@@ -1319,7 +1319,7 @@ def fmod(a, b):
         if z is not False and bool(z):
             return Poison('float modulo by zero')
     r = imod(x, y)
-    return mkf(r, e)
+    return _fexact(r, e, 'mod')         # (the exact remainder may need more than 53 bits when the operands are far apart)
 
 
 def fite(c, a, b):
